@@ -8,6 +8,7 @@ var Registry = map[string]func(*core.Ctx){
 	"C04": C04,
 	"C05": C05,
 	"C06": C06,
+	"C07": C07,
 	"C09": C09,
 	"C12": C12,
 	"C13": C13,
